@@ -39,8 +39,10 @@ func runC16(x *Ctx) {
 	if parse == nil || pub == nil || from == nil || cfc == nil {
 		return
 	}
-	decoded := "call[github.com/multiformats/go-multibase.Decode](slice(arg0,const(8),_,_))"
-	codeT := "conv[github.com/multiformats/go-multicodec.Code](call[github.com/multiformats/go-varint.FromUvarint](" + decoded + "#1)#0)"
+	rest, prefixAtom := didParseForm(x, parse)
+	decoded := "call[github.com/multiformats/go-multibase.Decode](" + rest + ")"
+	codeRaw := "call[github.com/multiformats/go-varint.FromUvarint](" + decoded + "#1)#0"
+	codeT := "conv[github.com/multiformats/go-multicodec.Code](" + codeRaw + ")"
 	psel, _, _ := x.E.Select(parse, paths.WantSuccess)
 	emitted, parsed, table, okLayoutF, dLayoutF := didCodeTables(x, parse, pub, from, cfc)
 	sub := func(a, b map[string]bool) string {
@@ -83,16 +85,24 @@ func runC16(x *Ctx) {
 	ssel, _, _ := x.E.Select(pub, paths.WantSuccess)
 	okU := len(ssel) > 0
 	dU := ""
-	var keyTerm string
+	var keyTerms []string
+	tbl := pubKeyTable(x, pub)
 	for _, v := range ssel {
 		r := v.Results()[0]
-		if r.Op != "extract" || r.Args[0].Op != "dyncall" || len(r.Args[0].Args) != 2 {
+		fnT, arg := unmarshallerCall(r)
+		if fnT == nil {
 			okU = false
 			dU += "returns " + r.String() + "\n"
 			continue
 		}
-		fnT, arg := r.Args[0].Args[0], r.Args[0].Args[1]
-		if !(fnT.Op == "extract" && fnT.Args[0].Op == "lookup" && fnT.Args[0].Args[1].String() == "recv.code") {
+		byLookup := fnT.Op == "extract" && fnT.Args[0].Op == "lookup" && fnT.Args[0].Args[1].String() == "recv.code"
+		bySwitch := false
+		for _, f := range v.Facts {
+			if f.Pol && f.Atom.Op == "eq" && (f.Atom.Args[0].String() == "recv.code" && f.Atom.Args[1].Op == "const" || f.Atom.Args[1].String() == "recv.code" && f.Atom.Args[0].Op == "const") {
+				bySwitch = true
+			}
+		}
+		if !byLookup && !bySwitch {
 			okU = false
 			dU += "unmarshaller selected by " + fnT.String() + "\n"
 		}
@@ -100,31 +110,35 @@ func runC16(x *Ctx) {
 			okU = false
 			dU += "unmarshaller applied to " + arg.String() + "\n"
 		}
-		keyTerm = r.String()
+		keyTerms = append(keyTerms, r.String())
 	}
+	_ = tbl
 	x.C.Obl("C16.R2", "layout:PubKey", x.pos(pub), "PubKey selects the unmarshaller by the stored code and applies it to bytes[UvarintSize(code):]", okU, dU)
 
 	// ---- R3
-	x.noPath("C16.R3", "prefix", parse, paths.WantSuccess, atoms(map[string]bool{`call[strings.HasPrefix](arg0,const("did:key:"))`: false}), 0, "no success without the did:key: prefix")
+	x.noPath("C16.R3", "prefix", parse, paths.WantSuccess, atoms(map[string]bool{prefixAtom: false}), 0, "no success without the did:key: prefix")
 	x.noPath("C16.R3", "multibase", parse, paths.WantSuccess, paths.CallFails(callee("github.com/multiformats/go-multibase.Decode")), 0, "no success unless multibase decoding succeeded")
 	x.noPath("C16.R3", "base58btc", parse, paths.WantSuccess, atoms(map[string]bool{eqs(decoded+"#0", "const(122)"): false}), 0, "no success unless the multibase encoding is base58btc ('z')")
 	x.noPath("C16.R3", "varint", parse, paths.WantSuccess, paths.CallFails(callee("github.com/multiformats/go-varint.FromUvarint")), 0, "no success unless the multicodec varint decodes")
 	x.noPath("C16.R3", "whitelist", parse, paths.WantSuccess, func(t *paths.Term) (bool, bool) {
-		if t.Op == "eq" && (t.Args[0].String() == codeT || t.Args[1].String() == codeT) {
+		if t.Op == "eq" && (isOneOf(t.Args[0], codeT, codeRaw) || isOneOf(t.Args[1], codeT, codeRaw)) {
 			return false, true
 		}
 		return false, false
 	}, 0, "no success unless the code equals one of the whitelisted constants")
 
 	// ---- R4
-	if keyTerm != "" {
-		rederived := "call[did.FromPubKey](" + keyTerm + ")"
-		A := atoms(map[string]bool{eqs(rederived+"#0", "recv"): false})
-		vs, err := x.E.ConsistentPaths(pub, paths.WantSuccess, paths.Both(A, paths.CallFails(callee("did.FromPubKey"))), 0)
-		idiomA := err == nil && len(vs) == 0
-		// both the error and the comparison must block
-		vs2, _ := x.E.ConsistentPaths(pub, paths.WantSuccess, A, 0)
-		idiomA = idiomA && len(vs2) == 0
+	if len(keyTerms) > 0 {
+		idiomA := true
+		var vs2 []paths.VPath
+		for _, v := range ssel {
+			// on every success path: FromPubKey(the key returned on this path) succeeded and equals the receiver
+			rederived := "call[did.FromPubKey](" + v.Results()[0].String() + ")"
+			if !v.HasFact(eqs(rederived+"#1", "const(nil)"), true) || !v.HasFact(eqs(rederived+"#0", "recv"), true) {
+				idiomA = false
+				vs2 = append(vs2, v)
+			}
+		}
 		// A length test for secp256k1 alone is NOT accepted as an alternative: the PKCS#1 RSA parser
 		// (x509.ParsePKCS1PublicKey) tolerates trailing elements inside the SEQUENCE, which vanish when
 		// the key is re-marshalled, so a padded RSA did:key would be a second identifier of the same
@@ -132,18 +146,42 @@ func runC16(x *Ctx) {
 		x.C.Obl("C16.R4", "canonical-identifier", x.pos(pub),
 			"PubKey returns a key only if FromPubKey(key) succeeded and equals the receiver DID: one principal, one DID, for every key type", idiomA,
 			"success path(s) without the canonical comparison:\n"+renderPaths(vs2, 2))
-		x.C.Obl("C16.R4", "lenient-unmarshaller-present", x.pos(pub), "the table still contains the lenient crypto.UnmarshalSecp256k1PublicKey (so R4 is needed)", tableHas(pub, "UnmarshalSecp256k1PublicKey"), "")
+		lenient := false
+		for _, fn := range pubKeyTable(x, pub) {
+			if strings.Contains(fn, "UnmarshalSecp256k1PublicKey") {
+				lenient = true
+			}
+		}
+		x.C.Obl("C16.R4", "lenient-unmarshaller-present", x.pos(pub), "the table still contains the lenient crypto.UnmarshalSecp256k1PublicKey (so R4 is needed)", lenient, "")
 	}
 
 	fixedWidthCoordinates(x)
 
-	// ---- R5
-	if g := x.fn("C16.R5", "did.ecdsaPubKeyUnmarshaler$1"); g != nil {
-		pt := "call[crypto/elliptic.UnmarshalCompressed](*fv0,arg0)"
-		vs, err := x.E.ConsistentPaths(g, paths.WantSuccess, atoms(map[string]bool{eqs(pt+"#0", "const(nil)"): true}), 0)
-		vs2, _ := x.E.ConsistentPaths(g, paths.WantSuccess, atoms(map[string]bool{eqs(pt+"#1", "const(nil)"): true}), 0)
-		// at least the x coordinate must be checked (y is nil iff x is nil)
-		x.C.Obl("C16.R5", "nil-point", x.pos(g), "no key is returned when elliptic.UnmarshalCompressed returned a nil coordinate", err == nil && (len(vs) == 0 || len(vs2) == 0), renderPaths(vs, 2))
+	// ---- R5: every function of package did that calls elliptic.UnmarshalCompressed rejects its nil result
+	nSites := 0
+	for _, g := range x.P.ModuleFuncs() {
+		if x.P.PkgPathOf(g) != "github.com/ucan-wg/go-ucan/did" || len(g.Blocks) == 0 {
+			continue
+		}
+		seen := map[string]bool{}
+		for _, p := range x.pathsQuiet(g) {
+			for _, c := range p.Calls() {
+				ct := p.Term(c)
+				if ct.Op != "call" || ct.Name != "crypto/elliptic.UnmarshalCompressed" || seen[ct.String()] {
+					continue
+				}
+				seen[ct.String()] = true
+				nSites++
+				pt := ct.String()
+				vs, err := x.E.ConsistentPaths(g, paths.WantSuccess, atoms(map[string]bool{eqs(pt+"#0", "const(nil)"): true}), 0)
+				vs2, _ := x.E.ConsistentPaths(g, paths.WantSuccess, atoms(map[string]bool{eqs(pt+"#1", "const(nil)"): true}), 0)
+				// at least the x coordinate must be checked (y is nil iff x is nil)
+				x.C.Obl("C16.R5", "nil-point", x.posOf(c, g), "no key is returned when elliptic.UnmarshalCompressed returned a nil coordinate", err == nil && (len(vs) == 0 || len(vs2) == 0), renderPaths(vs, 2))
+			}
+		}
+	}
+	if nSites == 0 {
+		x.C.Unresolved("C16.R5", "site:UnmarshalCompressed", "-", "no call of crypto/elliptic.UnmarshalCompressed found in package did")
 	}
 }
 
@@ -177,6 +215,83 @@ func fixedWidthCoordinates(x *Ctx) {
 	x.C.Obl("C16.R6", "fixed-width-coordinates", "did/crypto.go", "big integers of key material are serialised with FillBytes (fixed width), never with Bytes()", bad == "" && n >= 2, bad)
 }
 
+func isOneOf(t *paths.Term, ss ...string) bool {
+	for _, s := range ss {
+		if t.String() == s {
+			return true
+		}
+	}
+	return false
+}
+
+// didParseForm gives the rendering did.Parse uses for the text after the "did:key:" prefix and the atom
+// that establishes the prefix: today's HasPrefix + slicing, or strings.CutPrefix.
+func didParseForm(x *Ctx, parse *ssa.Function) (rest, prefixAtom string) {
+	cut := `call[strings.CutPrefix](arg0,const("did:key:"))`
+	for _, p := range x.pathsQuiet(parse) {
+		for _, c := range p.Calls() {
+			if ct := p.Term(c); ct.Op == "call" && ct.Name == "github.com/multiformats/go-multibase.Decode" && len(ct.Args) == 1 && ct.Args[0].String() == cut+"#0" {
+				return cut + "#0", cut + "#1"
+			}
+		}
+	}
+	return "slice(arg0,const(8),_,_)", `call[strings.HasPrefix](arg0,const("did:key:"))`
+}
+
+// pubKeyTable reads the association multicodec -> unmarshaller of DID.PubKey: either the entries of the
+// map literal indexed by the stored code, or the cases of a switch on the stored code (directly or in a
+// helper spliced into PubKey's paths). The value is the rendering of the unmarshaller.
+func pubKeyTable(x *Ctx, pub *ssa.Function) map[string]string {
+	out := map[string]string{}
+	for _, b := range pub.Blocks {
+		for _, in := range b.Instrs {
+			if mu, ok := in.(*ssa.MapUpdate); ok {
+				if k, ok := mu.Key.(*ssa.Const); ok {
+					out[k.Value.ExactString()] = paths.DetachedTerm(pub, mu.Value).String()
+				}
+			}
+		}
+	}
+	if len(out) > 0 {
+		return out
+	}
+	sel, _, _ := x.E.Select(pub, paths.WantSuccess)
+	for _, v := range sel {
+		fnT, _ := unmarshallerCall(v.Results()[0])
+		if fnT == nil {
+			continue
+		}
+		for _, f := range v.Facts {
+			if !f.Pol || f.Atom.Op != "eq" {
+				continue
+			}
+			a, b := f.Atom.Args[0], f.Atom.Args[1]
+			if a.Op == "const" && b.String() == "recv.code" {
+				out[a.Name] = fnT.String()
+			}
+			if b.Op == "const" && a.String() == "recv.code" {
+				out[b.Name] = fnT.String()
+			}
+		}
+	}
+	return out
+}
+
+// unmarshallerCall splits the key returned by PubKey into the unmarshaller applied and its argument.
+func unmarshallerCall(r *paths.Term) (fnT, arg *paths.Term) {
+	if r.Op != "extract" || len(r.Args) != 1 {
+		return nil, nil
+	}
+	ct := r.Args[0]
+	switch {
+	case ct.Op == "dyncall" && len(ct.Args) == 2:
+		return ct.Args[0], ct.Args[1]
+	case ct.Op == "call" && len(ct.Args) >= 1:
+		return ct, ct.Args[len(ct.Args)-1]
+	}
+	return nil, nil
+}
+
 func tableHas(f *ssa.Function, name string) bool {
 	for _, b := range f.Blocks {
 		for _, in := range b.Instrs {
@@ -196,8 +311,10 @@ func tableHas(f *ssa.Function, name string) bool {
 // didCodeTables computes the multicodec tables of package did: codes FromPubKey can emit, codes
 // Parse accepts, keys of PubKey's unmarshaller table; plus the layout verdict of FromPubKey.
 func didCodeTables(x *Ctx, parse, pub, from, cfc *ssa.Function) (emitted, parsed, table map[string]bool, okLayoutF bool, dLayoutF string) {
-	decoded := "call[github.com/multiformats/go-multibase.Decode](slice(arg0,const(8),_,_))"
-	codeT := "conv[github.com/multiformats/go-multicodec.Code](call[github.com/multiformats/go-varint.FromUvarint](" + decoded + "#1)#0)"
+	rest, _ := didParseForm(x, parse)
+	decoded := "call[github.com/multiformats/go-multibase.Decode](" + rest + ")"
+	codeRaw := "call[github.com/multiformats/go-varint.FromUvarint](" + decoded + "#1)#0"
+	codeT := "conv[github.com/multiformats/go-multicodec.Code](" + codeRaw + ")"
 
 	// ---- tables
 	parsed = map[string]bool{}
@@ -206,24 +323,18 @@ func didCodeTables(x *Ctx, parse, pub, from, cfc *ssa.Function) (emitted, parsed
 		for _, f := range v.Facts {
 			if f.Pol && f.Atom.Op == "eq" {
 				a, b := f.Atom.Args[0], f.Atom.Args[1]
-				if a.Op == "const" && b.String() == codeT {
+				if a.Op == "const" && isOneOf(b, codeT, codeRaw) {
 					parsed[a.Name] = true
 				}
-				if b.Op == "const" && a.String() == codeT {
+				if b.Op == "const" && isOneOf(a, codeT, codeRaw) {
 					parsed[b.Name] = true
 				}
 			}
 		}
 	}
 	table = map[string]bool{}
-	for _, b := range pub.Blocks {
-		for _, in := range b.Instrs {
-			if mu, ok := in.(*ssa.MapUpdate); ok {
-				if k, ok := mu.Key.(*ssa.Const); ok {
-					table[k.Value.ExactString()] = true
-				}
-			}
-		}
+	for k := range pubKeyTable(x, pub) {
+		table[k] = true
 	}
 	emitted = map[string]bool{}
 	fsel, _, _ := x.E.Select(from, paths.WantSuccess)
